@@ -108,6 +108,8 @@ def monitor(run):
 
 def replay(recipe):
     case, hits, _ = P.drive(recipe, MASK, monitor, 'ledger')
+    if recipe.get('gen') == 'G-exec-decimal-fill':
+        return None, hits          # monitor only (non-dyadic sizes are outside the model's domain)
     return case, hits
 
 
@@ -120,6 +122,18 @@ def run(ctx):
         ('G-exec-waves', 60, 1000, dict(waves=True)),
         ('G-exec-badpool', 60, 1000, dict(p_bad=1.0, bad_kinds=['asg-pool', 'susp-badpool'], bad_early=False)),
     ], nontrivial=lambda run: any(e.get('results') for e in run.trace))
+    # monitor-only: decimal (non-dyadic) RAM sizes filling the pool exactly; outside the model's exact-arithmetic domain
+    import collections
+    st = collections.Counter(out['dist'])
+    for i in range(ctx.budget(150, 2000)):
+        rng = ctx.case_rng('G-exec-decimal-fill', i)
+        cfg, run_ = X.gen_decimal_fill(rng)
+        st['decimal_fill_histories'] += 1
+        st['decimal_fill_batches_accepted'] += not run_.trace[0]['err']
+        for desc in monitor(run_):
+            out['hits'].append(dict(desc=desc, signature='ledger', recipe=cfg, gen='G-exec-decimal-fill'))
+            break
+    out['dist'] = dict(st)
     out['rule'] = ('G-exec command fuzzer (see C03) incl. simultaneous completions, kills and suspensions and commands with '
                    'out-of-range pool numbers; projection: results per tick, container lists per pool, operator states. '
                    'non-trivial = histories with at least one result')
